@@ -155,7 +155,7 @@ func isPlanMap(t types.Type) bool {
 }
 
 func ruleStrategyGuards(e *Engine, r *Reporter) {
-	r.Rule("fast-strategy-guarded", "in the default engine every reference to a fast-path handler (weight2Userset, weight2TTU, recursiveUserset, recursiveTTU) is control-dependent on the typesystem predicate that makes that strategy valid — directly, or by being selected by name from the offered-strategies map, into which that name is only ever inserted under the predicate", 10)
+	r.Rule("fast-strategy-guarded", "in the default engine every reference to a fast-path handler (weight2Userset, weight2TTU, recursiveUserset, recursiveTTU) is control-dependent on the typesystem predicate that makes that strategy valid — directly, or by being selected by name from the offered-strategies map, into which that name is only ever inserted under the predicate", 6)
 	scope := e.Pkg("internal/graph").Types.Scope()
 	constVal := func(n string) string {
 		c, ok := scope.Lookup(n).(*types.Const)
@@ -218,8 +218,9 @@ func ruleStrategyGuards(e *Engine, r *Reporter) {
 						}
 						return false
 					}})
-					// the compared name is a member of the offered map: `_, ok := m[name]` guards, or it is Select(m).Name
-					member := e.guardedAnyLevel(in, cutSpec{edge: func(f Fact) bool {
+					// the compared name is a member of the offered map: `_, ok := m[name]` guards, or it is Select(m).Name;
+					// when the comparison sits in a helper taking the name as a parameter, this is required at every call site
+					memberCut := cutSpec{edge: func(f Fact) bool {
 						if f.Kind != "bool" || !f.Positive {
 							return false
 						}
@@ -229,39 +230,63 @@ func ruleStrategyGuards(e *Engine, r *Reporter) {
 						}
 						lk, ok := ex.Tuple.(*ssa.Lookup)
 						return ok && lk.CommaOk && isPlanMap(lk.X.Type())
-					}})
-					if !member {
-						for _, x := range cmpd {
-							// strategy.Name: peel the field load
-							if u, ok := unwrap(x).(*ssa.UnOp); ok {
-								if fa, ok := u.X.(*ssa.FieldAddr); ok {
-									x = fa.X
-								}
-							}
-							if derivesFrom(x, func(v ssa.Value) bool {
-								c, ok := v.(*ssa.Call)
-								if !ok {
-									return false
-								}
-								o := calleeObj(c)
-								if o == nil || o.Name() != "Select" {
-									return false
-								}
-								for _, a := range c.Call.Args {
-									if isPlanMap(a.Type()) {
-										return true
-									}
-								}
-								return false
-							}) {
-								member = true
+					}}
+					fromSelect := func(x ssa.Value) bool {
+						if u, ok := unwrap(x).(*ssa.UnOp); ok { // strategy.Name: peel the field load
+							if fa, ok := u.X.(*ssa.FieldAddr); ok {
+								x = fa.X
 							}
 						}
+						return derivesFrom(x, func(v ssa.Value) bool {
+							c, ok := v.(*ssa.Call)
+							if !ok {
+								return false
+							}
+							o := calleeObj(c)
+							if o == nil || o.Name() != "Select" {
+								return false
+							}
+							for _, a := range c.Call.Args {
+								if isPlanMap(a.Type()) {
+									return true
+								}
+							}
+							return false
+						})
 					}
-					// every insertion of that name into an offered map in this function is under the predicate
+					tops := map[*ssa.Function]bool{top: true}
+					member := e.guardedAnyLevel(in, memberCut)
+					for _, x := range cmpd {
+						if member {
+							break
+						}
+						if fromSelect(x) {
+							member = true
+							break
+						}
+						if prm, ok := unwrap(x).(*ssa.Parameter); ok {
+							idx := -1
+							for i, q := range prm.Parent().Params {
+								if q == prm {
+									idx = i
+								}
+							}
+							sites := e.allCallSites(prm.Parent())
+							all := len(sites) > 0 && idx >= 0
+							for _, cs := range sites {
+								args := cs.Common().Args
+								if idx >= len(args) || !(e.guardedAnyLevel(cs, memberCut) || fromSelect(args[idx])) {
+									all = false
+								}
+								tops[topLevel(cs.Parent())] = true
+							}
+							member = all
+						}
+					}
+					// every insertion of that name into an offered map in the function(s) that select by name is under the predicate
 					offers, offersOK := 0, true
 					for _, g := range e.Fns {
-						if topLevel(g) != top {
+						if !tops[topLevel(g)] {
 							continue
 						}
 						eachInstr(g, false, func(i2 ssa.Instruction) {
